@@ -276,6 +276,43 @@ func viaManager(i int, ops []udpx.Op) *engine.Scenario {
 	return concurrent(fmt.Sprintf("udp-via-manager-%d", i), udpx.Config{Keys: udpx.DefaultKeys(), NatTimeout: natTimeout, Listeners: 1, ViaManager: true}, ops)
 }
 
+// revoked: the key list is replaced by one without key 1 while a datagram under key 1 is being
+// handled (either order is fine for that datagram); afterwards a datagram under the revoked key
+// from a client address the server has not seen is not forwarded and opens nothing.
+func revoked(i int) *engine.Scenario {
+	tr := &udpx.Trace{}
+	// (key 1 is revoked: no other listed key shares its cipher and secret)
+	ops := []udpx.Op{{K: "S", C: 1, Key: 2, T: 1, N: 9}, {K: "P", Par: []udpx.Op{{K: "S", C: 0, Key: 1, T: 1, N: 20}, {K: "U", Key: 1}}}, {K: "S", C: 2, Key: 1, T: 1, N: 12}, {K: "S", C: 1, Key: 2, T: 1, N: 5}}
+	if i == 1 {
+		// the racing datagram arrives on a live association of the revoked key
+		ops = append([]udpx.Op{{K: "S", C: 0, Key: 1, T: 1, N: 7}}, ops...)
+	}
+	sc := &engine.Scenario{Name: fmt.Sprintf("udp-key-revoked-%d", i), Opt: vrt.Options{Horizon: udpx.Horizon}}
+	sc.Body = func() {
+		udpx.Run(udpx.Config{Keys: udpx.DefaultKeys(), NatTimeout: natTimeout}, ops, tr)
+	}
+	sc.Check = func(x *vrt.Exec) (string, bool, []*engine.Finding) {
+		fs := hk.Generic(x, hk.Opts{})
+		if len(fs) > 0 {
+			return "generic", true, fs
+		}
+		n := len(tr.Steps)
+		late, other := tr.Steps[n-3], tr.Steps[n-2] // (the last step is END)
+		if len(late.TargetRecv) != 0 || len(late.NewSocks) != 0 {
+			fs = append(fs, &engine.Finding{Sig: "invalid-datagram-forwarded", Msg: fmt.Sprintf("a datagram under a key that the current list no longer has (revoked by an update that raced an earlier datagram under it), from a new client address: %d datagram(s) reached a target, %d socket(s) opened", len(late.TargetRecv), len(late.NewSocks))})
+		}
+		if len(other.TargetRecv) != 1 {
+			fs = append(fs, &engine.Finding{Sig: "valid-datagram-not-forwarded", Msg: "after the update a datagram under a key that is still listed was not forwarded"})
+		}
+		obs := ""
+		for _, st := range tr.Steps {
+			obs += fmt.Sprintf("%s:%d/%d;", st.Op.K, len(st.TargetRecv), len(st.NewSocks))
+		}
+		return obs, true, fs
+	}
+	return sc
+}
+
 func viaManagerInputs() [][]udpx.Op {
 	return [][]udpx.Op{
 		{{K: "P", Par: []udpx.Op{{K: "S", C: 0, Key: 0, T: 1, N: 40}, {K: "S", C: 1, Key: 1, T: 2, N: 30}}}},
@@ -426,6 +463,9 @@ func init() {
 		for i, in := range viaManagerInputs() {
 			engine.ExploreS(ctx, viaManager(i, in), engine.SConfig{BothPolicies: true, Bound: bound, Shard: ctx.Shard, NShards: ctx.NShards, Deadline: ctx.Deadline})
 		}
+		for i := 0; i < 2; i++ {
+			engine.ExploreS(ctx, revoked(i), engine.SConfig{BothPolicies: true, Bound: bound + 1, Shard: ctx.Shard, NShards: ctx.NShards, Deadline: ctx.Deadline})
+		}
 		depth := 3
 		if ctx.Tier == "thorough" {
 			depth = 4
@@ -460,6 +500,9 @@ func init() {
 				scs = append(scs, twoListeners(i, in))
 			}
 			return engine.ReplayScenario(scs, rp)
+		}
+		if strings.HasPrefix(rp.Unit, "udp-key-revoked") {
+			return engine.ReplayScenario([]*engine.Scenario{revoked(0), revoked(1)}, rp)
 		}
 		if strings.HasPrefix(rp.Unit, "udp-via-manager") {
 			var scs []*engine.Scenario
